@@ -12,8 +12,9 @@ LEVEL = "exploration"
 RULE = ("seeded programs with one *subject* `until(n)` block (n in: delay, time ==/>=/< with "
         "future, now and past dates, flags and inverted flags set before / during / toggled, "
         "tracked comparisons, task.done, instant, eternity, & and | of monotone atoms), bodies "
-        "with sleeps, children (volatile or not, delayed) and nested until-blocks with equal or "
-        "different deadlines, optionally inside an enclosing until-block; the actor keeps "
+        "with sleeps, children (volatile or not, delayed), clean-up handlers that suspend "
+        "within the time step while an exception passes through, and nested until-blocks with "
+        "equal or different deadlines, optionally inside an enclosing until-block; the actor keeps "
         "sleeping across the trigger time afterwards. Each program runs twice: as is, and as a "
         "twin in which the subject is a plain Scope. A second mode runs a program with "
         "run(till=T) against its twin without till, T in {start, between events, on an event, "
@@ -444,6 +445,8 @@ def run_case(case):
             out.violations, info = check_until(rec, twin)
             tag_overtaken(rec, out.violations, F25_RULES)
         stats = {}
+        if any(ev[4] == "cleanup+" for ev in rec.trace):
+            stats["probe.signal-through-suspending-cleanup"] = 1
         nontrivial = False
         if case.get("mode") == "till":
             stats["probe.till-runs"] = 1
